@@ -185,12 +185,13 @@ Definition reset_empty (self : nat) (b : buf) : buf :=
   | None => mkbuf None (BCap self) 0 0 (capf b)
   end.
 
+(* the repaired code compares sizes, not pointers: if(size >= (usize)(bufferEnd - bufferStart)) *)
 Definition remove_front (self : nat) (b : buf) (n : nat) : res buf :=
-  let b1 := mkbuf (own b) (wb b) (start b + n) (stop b) (capf b) in
-  if stop b1 <=? start b1 then terminate_if_owned (reset_empty self b1) else Ok b1.
+  if size b <=? n then terminate_if_owned (reset_empty self b)
+  else Ok (mkbuf (own b) (wb b) (start b + n) (stop b) (capf b)).
 
 Definition remove_back (self : nat) (b : buf) (n : nat) : res buf :=
-  let b1 := if stop b <=? start b + n then reset_empty self b
+  let b1 := if size b <=? n then reset_empty self b
             else mkbuf (own b) (wb b) (start b) (stop b - n) (capf b) in
   terminate_if_owned b1.
 
